@@ -10,7 +10,7 @@ line "VIOLATION property=<id> replay=<path>", 2 infrastructure trouble (never a 
 """
 import json, os, re, shutil, subprocess, sys, tempfile, time, glob
 
-V = '/verif'
+V = os.path.dirname(os.path.abspath(__file__))  # /verif, or a snapshot of it (vp run)
 OUT = os.environ.get('VERIF_OUT', V)  # evidence/ and replays/ go here (mutation testing redirects it)
 NCPU = os.cpu_count() or 8
 
